@@ -312,6 +312,8 @@ pub fn run(_ctx: &Ctx, rep: &Report) {
     for code in 0..8192u16 {
         for bit in 0..14 {
             let before = if bit < 13 { frame_with_ac(4, code ^ (1 << bit)) } else { frame_with_ac12(11, ((code & 0x1f80) >> 1) | (code & 0x3f)) };
+            // an unrelated code first, so that the previous pair (which ended on this very code) does not prime any memo
+            let _ = decode(&frame_with_ac(4, !code & 0x1fbf));
             let _ = decode(&before);
             np += 1;
             if let Some((c, w)) = check_ac13(&r, 4, code) {
@@ -322,6 +324,7 @@ pub fn run(_ctx: &Ctx, rep: &Report) {
     for code in 0..4096u16 {
         for bit in 0..13 {
             let before = if bit < 12 { frame_with_ac12(11, code ^ (1 << bit)) } else { frame_with_ac(4, ((code & 0xfc0) << 1) | (code & 0x3f) | 0x40) };
+            let _ = decode(&frame_with_ac12(11, !code & 0xfff));
             let _ = decode(&before);
             np += 1;
             if let Some((c, w)) = check_ac12(&r, 11, code) {
@@ -429,10 +432,12 @@ pub fn replay(w: &Value, rep: &Report) {
     let code = w["code"].as_u64().unwrap_or(0) as u16;
     let res = match w["kind"].as_str() {
         Some("ac13-after") => {
+            let _ = decode(&frame_with_ac(4, !code & 0x1fbf));
             let _ = decode(&unhex(w["after"].as_str().unwrap_or("")));
             check_ac13(&r, w["df"].as_u64().unwrap() as u8, code).map(|(c, t)| (format!("sequence:{c}"), t))
         }
         Some("ac12-after") => {
+            let _ = decode(&frame_with_ac12(11, !code & 0xfff));
             let _ = decode(&unhex(w["after"].as_str().unwrap_or("")));
             check_ac12(&r, w["tc"].as_u64().unwrap() as u8, code).map(|(c, t)| (format!("sequence:{c}"), t))
         }
